@@ -58,6 +58,7 @@ class C18(Prop):
     def gen(self, rng, tier):
         n = 80 if tier == 'quick' else 800
         out = []
+        csv_seen = rng.randint(0, 5)
         for i in range(n):
             if rng.random() < 0.35:
                 c = tied_topn_case(rng, tier)
@@ -71,7 +72,7 @@ class C18(Prop):
                 continue
             else:
                 c = sl.gen_session(rng, tier, all_quoted=True, max_days=(30 if tier == 'quick' else 120))
-            if rng.random() < 0.6 and c['stream'] != 'tied-topn':
+            if rng.random() < 0.85 and c['stream'] != 'tied-topn':
                 cfg = c['cfg']
                 c['market'] = csv_market(rng, c['assets'], cfg['start'] // DAY, cfg['end'] // DAY, c['exact'])
                 c['stream'] += ':csv'
@@ -79,57 +80,62 @@ class C18(Prop):
                 evt = [t for t, _ in sl.event_times(cfg['start'], cfg['end'])]
                 c['extra_queries'] += [[a_, t] for a_ in c['assets'] for t in rng.sample(evt, min(len(evt), 12))]
             c['mode'] = 'twice'
-            if c['market']['kind'] == 'csv' and c['cfg'].get('lookbacks') is None and rng.random() < 0.4:
-                c['mode'] = 'default_pending'
-            elif c['market']['kind'] == 'csv' and rng.random() < 0.3:
-                c['mode'] = 'prequeried'
-                c['stream'] += ':prequeried'
-            elif c['market']['kind'] == 'csv' and rng.random() < 0.6:
-                # the data source first serves a DIFFERENT (later, overlapping or disjoint) session
+            if c['market']['kind'] == 'csv':
+                # the modes take turns (every mode gets its share under every seed); a mode that does not apply to the
+                # case at hand hands over to the next one
                 cfg = c['cfg']
-                shift = rng.choice([3, 10, 25, 60, -10, -25, -60]) * DAY
-                other = dict(cfg, start=cfg['start'] + shift, end=cfg['end'] + shift)
-                if other.get('burn') is not None:
-                    other['burn'] = other['burn'] + shift
-                if other['universe'][0] == 'dynamic':
-                    other['universe'] = ['dynamic', [[a, (None if e is None else e + shift)] for a, e in other['universe'][1]]]
-                c['cfg_other'] = other
-                lo = min(cfg['start'], cfg['start'] + shift) // DAY
-                hi = max(cfg['end'], cfg['end'] + shift) // DAY
-                c['market'] = csv_market(rng, c['assets'], lo, hi, c['exact'])
-                c['mode'] = 'after_other'
-                c['stream'] += ':reused'
-                if rng.random() < 0.5:
-                    # a second vendor with a longer history and different quotes behind a primary one whose files begin
-                    # with the session; the same data HANDLER (not only its sources) first serves the other session
-                    backup = csv_market(rng, c['assets'], lo, hi, c['exact'])['assets']
-                    first = cfg['start'] // DAY - rng.choice([0, 1, 3])
-                    prim = dict((a, [r for r in rows if r[0] >= first] or rows[-1:]) for a, rows in c['market']['assets'].items())
-                    c['market'] = dict(c['market'], assets=prim, backup=backup)
-                    c['share_handler'] = True
-                    c['stream'] += ':two-vendors'
-            if c['market']['kind'] == 'csv' and c['mode'] == 'twice' and rng.random() < 0.6:
-                cfg = c['cfg']
-                c['market'] = csv_market(rng, c['assets'], cfg['start'] // DAY, cfg['end'] // DAY, c['exact'], adjust=True)
-                # another data source object on the same directory with the opposite adjustment setting is used first
-                c['mode'] = 'same_dir'
-                c['event_times'] = [[t, k] for t, k in sl.event_times(c['cfg']['start'], c['cfg']['end'])]
-                c['stream'] += ':same-dir-other-adjust'
-            elif c['market']['kind'] == 'csv' and c['mode'] == 'twice' and not c['market'].get('backup') and rng.random() < 0.7:
-                cfg = c['cfg']
-                c['market2'] = csv_market(rng, c['assets'], cfg['start'] // DAY, cfg['end'] // DAY, c['exact'], adjust=c['market'].get('adjust', True))
-                c['event_times'] = [[t, k] for t, k in sl.event_times(cfg['start'], cfg['end'])]
-                c['mode'] = 'churn'
-                c['stream'] += ':sources-on-another-market-built-and-dropped-first'
-            elif c['mode'] == 'default_pending':
-                # sessions that build their OWN data handler from QSTRADER_CSV_DATA_DIR: one on another directory (same symbols,
-                # other prices) runs first in the process, then the session under test; baseline = explicit handler
-                cfg = c['cfg']
-                c['market'] = csv_market(rng, c['assets'], cfg['start'] // DAY, cfg['end'] // DAY, c['exact'], adjust=True)
-                c['market2'] = csv_market(rng, c['assets'], cfg['start'] // DAY, cfg['end'] // DAY, c['exact'], adjust=True)
-                c['default_handler'] = True
-                c['mode'] = 'default_after_other'
-                c['stream'] += ':default-dir-after-other-dir'
+                order = ['prequeried', 'after_other', 'same_dir', 'churn', 'default_after_other', 'twice']
+                start_at = csv_seen % len(order)
+                csv_seen += 1
+                for want in order[start_at:] + order[:start_at]:
+                    if want == 'default_after_other' and cfg.get('lookbacks') is not None:
+                        continue
+                    break
+                if want == 'prequeried':
+                    c['mode'] = 'prequeried'
+                    c['stream'] += ':prequeried'
+                elif want == 'after_other':
+                    # the data source first serves a DIFFERENT (later, overlapping or disjoint) session
+                    shift = rng.choice([3, 10, 25, 60, -10, -25, -60]) * DAY
+                    other = dict(cfg, start=cfg['start'] + shift, end=cfg['end'] + shift)
+                    if other.get('burn') is not None:
+                        other['burn'] = other['burn'] + shift
+                    if other['universe'][0] == 'dynamic':
+                        other['universe'] = ['dynamic', [[a, (None if e is None else e + shift)] for a, e in other['universe'][1]]] + list(other['universe'][2:])
+                    c['cfg_other'] = other
+                    lo = min(cfg['start'], cfg['start'] + shift) // DAY
+                    hi = max(cfg['end'], cfg['end'] + shift) // DAY
+                    c['market'] = csv_market(rng, c['assets'], lo, hi, c['exact'])
+                    c['mode'] = 'after_other'
+                    c['stream'] += ':reused'
+                    if rng.random() < 0.5:
+                        # a second vendor with a longer history and different quotes behind a primary one whose files begin
+                        # with the session; the same data HANDLER (not only its sources) first serves the other session
+                        backup = csv_market(rng, c['assets'], lo, hi, c['exact'])['assets']
+                        first = cfg['start'] // DAY - rng.choice([0, 1, 3])
+                        prim = dict((a, [r for r in rows if r[0] >= first] or rows[-1:]) for a, rows in c['market']['assets'].items())
+                        c['market'] = dict(c['market'], assets=prim, backup=backup)
+                        c['share_handler'] = True
+                        c['stream'] += ':two-vendors'
+                elif want == 'same_dir':
+                    c['market'] = csv_market(rng, c['assets'], cfg['start'] // DAY, cfg['end'] // DAY, c['exact'], adjust=True)
+                    # another data source object on the same directory with the opposite adjustment setting is used first
+                    c['mode'] = 'same_dir'
+                    c['event_times'] = [[t, k] for t, k in sl.event_times(cfg['start'], cfg['end'])]
+                    c['stream'] += ':same-dir-other-adjust'
+                elif want == 'churn':
+                    c['market2'] = csv_market(rng, c['assets'], cfg['start'] // DAY, cfg['end'] // DAY, c['exact'], adjust=c['market'].get('adjust', True))
+                    c['event_times'] = [[t, k] for t, k in sl.event_times(cfg['start'], cfg['end'])]
+                    c['mode'] = 'churn'
+                    c['stream'] += ':sources-on-another-market-built-and-dropped-first'
+                elif want == 'default_after_other':
+                    # sessions that build their OWN data handler from QSTRADER_CSV_DATA_DIR: one on another directory (same symbols,
+                    # other prices) runs first in the process, then the session under test; baseline = explicit handler
+                    c['market'] = csv_market(rng, c['assets'], cfg['start'] // DAY, cfg['end'] // DAY, c['exact'], adjust=True)
+                    c['market2'] = csv_market(rng, c['assets'], cfg['start'] // DAY, cfg['end'] // DAY, c['exact'], adjust=True)
+                    c['default_handler'] = True
+                    c['mode'] = 'default_after_other'
+                    c['stream'] += ':default-dir-after-other-dir'
             if c['mode'] == 'twice' and rng.random() < 0.6:
                 c['share_universe'] = True          # the second run is given the universe object of the first
                 c['stream'] += ':shared-universe'
@@ -147,6 +153,8 @@ class C18(Prop):
         j = Judgement()
         j.key = hash(repr(c['cfg']))
         a, b = impl['first'], impl['second']
+        if 'address_reused' in impl:
+            j.tags.append('address-reused' if impl['address_reused'] else 'address-not-reused')
         c2 = c
         if c['market']['kind'] == 'csv':
             c2 = dict(c)
